@@ -210,7 +210,16 @@ class History:
         emit_ns = ns
         if ns == '/' and rng.random() < 0.5:
             emit_ns = None
-        return ['emit', self.token, to, skip, emit_ns, cb]
+        op = ['emit', self.token, to, skip, emit_ns, cb]
+        # payloads with byte strings: the event is a packet of several frames
+        # per recipient
+        k = rng.random()
+        if k < 0.25:
+            op.append({'t': self.token, 'b': bytes([self.token % 256])})
+        elif k < 0.35:
+            op.append({'t': self.token, 'b': [b'\x00', b'\x01\x02'],
+                       'n': {'deep': b'xyz'}})
+        return op
 
     # -------------------------------------------------------------- judge
     def witness(self, res, extra=None):
@@ -459,6 +468,19 @@ class History:
                 self.kill_transport(T)
                 ctx.count('clients_found_dead_during_emit')
             ctx.count('emits_judged')
+            if len(op) > 6:
+                ctx.count('binary_emits_judged')
+                if sum(want.values()) > 1:
+                    ctx.count('binary_emits_to_several_recipients')
+                # the payload arrives whole at every recipient
+                for T, pkts in sent.items():
+                    for p in pkts:
+                        if p['type'] == R.BINARY_EVENT and \
+                                p['data'][0] == 'tok%d' % token and \
+                                not R.deep_eq(p['data'][1:], [op[6]]):
+                            return self.fail(
+                                'binary emit arrived as %r, sent %r' % (
+                                    p['data'][1:], op[6]), res)
             ctx.count('deliveries_checked', sum(tokens.values()))
             if tokens != want:
                 return self.fail(
@@ -553,6 +575,7 @@ def run(ctx):
         'whether they raise is recorded, not judged',
         'threaded server driven sequentially (async_handlers=False)']
     ctx.require('emits_judged', 50)
+    ctx.require('binary_emits_to_several_recipients', 10)
     ctx.require('deliveries_checked', 50)
     ctx.require('rooms_queries', 50)
     ctx.require('room_ops', 20)
